@@ -23,10 +23,10 @@ ASSUMPTIONS = ['columns are exactly coercible to the required dtypes (no NaN in 
 REFUSE = ['not_a_frame', 'empty', 'missing_column', 'duplicates', 'type0_coincident', 'vv_coincident']
 REQUIRED = ['refuse:' + r for r in REFUSE] + ['accept', 'legal_coincidence_other_ceilo', 'duplicate_only_after_coercion',
             'duplicate_only_after_dropping_extra_column', 'several_vv_rows_one_measurement',
-            'several_type0_rows_one_measurement', 'dtype_variant', 'extra_columns', 'valid_unchanged', 'index_named_like_column', 'signed_zero', 'edited_after_check']
+            'several_type0_rows_one_measurement', 'dtype_variant', 'dtype_big_endian', 'frame_flag_no_duplicate_labels', 'extra_columns', 'valid_unchanged', 'index_named_like_column', 'signed_zero', 'edited_after_check']
 SIZES = {'quick': 3000, 'thorough': 60000}
 DEFECTS = ['none', 'none', 'drop_col', 'dup_row', 'dup_after_coercion', 'dup_after_extra_drop', 't0_same', 't0_other',
-           'vv_same', 'vv_other', 'two_vv', 'two_t0', 'dtypes', 'extra_cols', 'perm_cols', 'odd_index', 'index_named_like_column', 'signed_zero', 'empty',
+           'vv_same', 'vv_other', 'two_vv', 'two_t0', 'dtypes', 'dtypes', 'frame_flags', 'extra_cols', 'perm_cols', 'odd_index', 'index_named_like_column', 'signed_zero', 'empty',
            'not_a_frame']
 
 
@@ -134,8 +134,21 @@ def inject(rng, df, defect, tags):
     if defect == 'dtypes':
         tags.add('dtype_variant')
         out = df.copy()
-        k = int(rng.integers(7))
-        if k == 0:
+        k = int(rng.integers(10))
+        if k == 7:
+            # non-native byte order (what binary / FITS / netCDF readers hand over): same values, same kind and size
+            tags.add('dtype_big_endian')
+            out['dt'] = out['dt'].to_numpy().astype('>f8')
+            out['height'] = out['height'].to_numpy().astype('>f8')
+        elif k == 8:
+            tags.add('dtype_big_endian')
+            out['type'] = out['type'].to_numpy().astype('>i8')
+            out['height'] = out['height'].to_numpy().astype('>f4').astype('>f8')
+        elif k == 9:
+            out['type'] = out['type'].to_numpy().astype('>i2')
+            out['dt'] = out['dt'].to_numpy().astype('>f8')
+            tags.add('dtype_big_endian')
+        elif k == 0:
             out['ceilo'] = out['ceilo'].astype(object)
         elif k == 1:
             m = {n: j for j, n in enumerate(sorted(set(df['ceilo'])))}
@@ -153,6 +166,14 @@ def inject(rng, df, defect, tags):
             out['height'] = [None if v != v else int(v) for v in out['height']]
             out['height'] = out['height'].astype(object)
             out = out.drop_duplicates().reset_index(drop=True)
+        return out
+    if defect == 'frame_flags':
+        # pandas' "no duplicate labels" flag (legal on any uniquely indexed frame; it survives copies)
+        out = df.copy()
+        if out.index.is_unique:
+            out.flags.allows_duplicate_labels = False
+            tags.add('frame_flag_no_duplicate_labels')
+            out.attrs['source'] = 'reader-x'
         return out
     if defect == 'extra_cols':
         tags.add('extra_columns')
